@@ -247,6 +247,24 @@ ADDED4 = {
     "C12": "Also: the function's result as an argument of a declared C++ function and of the built-in DeltaR.",
     "C13": "Also: operator cells after an earlier query declared the value methods with other types; a backend-default bool method declared int by the query, in arithmetic.",
 }
+ADDED5 = {
+    "C02": "Also: seeded aggregates (computed, negative, compound seeds) bare and consumed by a comparison, an event filter, a function, a conditional's test.",
+    "C03": "Also: conditionals whose test is a literal True / False.",
+    "C05": "Also: explicit column names that repeat (vector, 2-D and scalar columns).",
+    "C06": "Also: own and foreign-backend declarations of one name in three orders.",
+    "C09": "Also: integer constants beyond every 64-bit C++ integer at every value position.",
+    "C10": "Also: collection types declared by their template spelling, incl. pointer-typed template arguments.",
+    "C11": "Also: a code template without blanks (every parameter occurrence touches operator characters).",
+    "C12": "Also: float / int argument mixes of the multi-argument functions.",
+    "C13": "Also: aggregates whose update ignores the accumulator, with a fractional / negative default.",
+    "C14": "Also: the same query object translated two and three times by fresh executors.",
+    "C15": "Also: dependencies given as tuples and as list objects shared between blocks.",
+    "C16": "Also: persistent faults of the delivery tools (the k-th and every later use fails); a failed attempt that is retried successfully is not a failed step.",
+    "C17": "Also: input file names with blanks, parentheses, '#', '&', '~', a non-ASCII letter.",
+    "C18": "Also: combining and compatibility characters (U+0301, U+212A) in the string alphabet.",
+}
+for _k, _v in ADDED5.items():
+    ADDED4[_k] = (ADDED4.get(_k, "") + " " + _v).strip()
 for _k, _v in ADDED4.items():
     ADDED3[_k] = (ADDED3.get(_k, "") + " " + _v).strip()
 for _k, _v in ADDED3.items():
